@@ -9,7 +9,7 @@
 (* only subclasses of Exception may be declared.                                                          *)
 EXTENDS MambaStatic, Json
 
-CONSTANTS Depth, Part     \* Part: "raise" | "position" | "declare"
+CONSTANTS Depth, Part     \* Part: "raise" | "position" | "declare" | "multi"
 
 Excs == {"E1", "E1a", "E1b", "E2"}
 ExcDecls == << Class("E1", <<>>, <<Parent("Exception", <<>>)>>, <<>>, <<>>), Class("E1a", <<>>, <<Parent("E1", <<>>)>>, <<>>, <<>>),
@@ -68,12 +68,32 @@ PositionProbes ==
             RaisesOK(R, D, H), [raised |-> R, how |-> "call", declared |-> D, handled |-> H, position |-> "in-arm", method |-> FALSE])
       : R \in {"E1", "E1a", "E2"}, D \in {{}, {"E1"}}, H \in {{}, {"E1"}} }
 
+\* callees that declare SEVERAL exceptions (in every order): a caller has to cover each of them, whatever its place in the list;
+\* the callee is a function or a method, the caller declares D and handles H
+MultiSeq == << <<"E1", "E2">>, <<"E2", "E1">>, <<"E1a", "E2">>, <<"E2", "E1a">>, <<"E1b", "E1">>, <<"E1", "E1b">>, <<"E2", "E1b", "E1">>, <<"E1", "E2", "E1a">> >>
+MultiLists == {MultiSeq[j] : j \in 1..Len(MultiSeq)}
+MultiName(RS) == LET F[j \in 0..Len(RS)] == IF j = 0 THEN "" ELSE F[j - 1] \o "_" \o RS[j] IN F[Len(RS)]
+MultiBody(RS) == [j \in 1..Len(RS) |-> If(Bin("=", Var("x"), IntL(j)), <<Raise(RS[j], <<>>)>>, <<>>)] \o <<Expr(Var("x"))>>
+MultiDecls == [j \in 1..Len(MultiSeq) |->
+                 LET RS == MultiSeq[j] IN
+                 Fun("r" \o MultiName(RS), <<Param("x", "Int", Absent)>>, "Int", RS, MultiBody(RS))]
+MultiThrower == Class("MultiThrower", <<>>, <<>>, <<>>,
+                      [j \in 1..Len(MultiDecls) |-> Method("m" \o MultiDecls[j].n, TRUE, MultiDecls[j].ps, "Int", MultiDecls[j].raises, MultiDecls[j].b)])
+MultiProbes ==
+    { [kind |-> "raises-multi", decls |-> ExcDecls \o MultiDecls \o <<MultiThrower>>
+                 \o <<Caller(FALSE, D, (LET e == IF how = "call" THEN Call("r" \o MultiName(RS), <<IntL(0)>>) ELSE MCall(New("MultiThrower", <<>>), "mr" \o MultiName(RS), <<IntL(0)>>)
+                                              s == IF pos = "init" THEN Def("a", TRUE, "", e) ELSE Expr(e) IN
+                                          IF H = {} THEN <<s>> ELSE <<Handle(s, Arms(H))>>) \o <<Expr(IntL(0))>>)>>,
+       setup |-> <<>>, stmts |-> <<PrintS(StrL("x"))>>, writes |-> FALSE,
+       expect |-> Verdict(RaisesAllOK(RS, D, H)), note |-> [raised_all |-> RS, how |-> how, declared |-> D, handled |-> H, position |-> pos, method |-> FALSE]]
+      : RS \in MultiLists, how \in {"call", "mcall"}, D \in Ds, H \in Hs, pos \in {"stmt", "init"} }
+
 \* only subclasses of Exception may be declared
 DeclareProbes ==
     { Probe("raises-declare", Caller(meth, {d}, <<Expr(IntL(0))>>), DeclarableOK(d), [declared_class |-> d, method |-> meth])
       : d \in {"E1", "E1b", "Exception", "NotExc"}, meth \in BOOLEAN }
 
-Probes == CASE Part = "raise" -> RaiseProbes [] Part = "position" -> PositionProbes [] Part = "declare" -> DeclareProbes
+Probes == CASE Part = "raise" -> RaiseProbes [] Part = "position" -> PositionProbes [] Part = "declare" -> DeclareProbes [] Part = "multi" -> MultiProbes
 
 Cases == { [prop |-> "C08", kind |-> p.kind, ctx |-> <<>>, hoist |-> FALSE, expect |-> p.expect, note |-> p.note, prog |-> Plug(<<>>, FALSE, p)]
            : p \in Probes }
